@@ -50,6 +50,8 @@ type driver struct {
 	atestSupply sdkmath.Int
 }
 
+var unit = new(big.Int).Exp(big.NewInt(10), big.NewInt(18), nil)
+
 var transferSig = crypto.Keccak256Hash([]byte("Transfer(address,address,uint256)"))
 
 // fakeLogCode: any call emits Transfer(caller, module, 1000) and returns 32 zero bytes.
@@ -67,7 +69,8 @@ func fakeLogCode(module common.Address) []byte {
 }
 
 func newDriver(tier string) *driver {
-	w := world.New(world.Options{NumAccounts: 5, ExtraCoins: sdk.NewCoins(sdk.NewInt64Coin("atest", 1000000))})
+	// amounts as they occur on an 18-decimals chain: a thousand whole tokens, far beyond 2^64 base units
+	w := world.New(world.Options{NumAccounts: 5, ExtraCoins: sdk.NewCoins(sdk.NewCoin("atest", sdkmath.NewIntFromBigInt(unit).MulRaw(1000)))})
 	d := &driver{w: w, tier: tier, abi: contracts.ERC20MinterBurnerDecimalsContract.ABI}
 	d.mod = authtypes.NewModuleAddress(erc20types.ModuleName)
 	d.modHex = erc20types.ModuleAddress
@@ -103,11 +106,11 @@ func newDriver(tier string) *driver {
 		d.toks = append(d.toks, token{name, addr, p.Denom, "erc20"})
 	}
 	honest := deploy("honest", contracts.ERC20MinterBurnerDecimalsContract.Bin, contracts.ERC20MinterBurnerDecimalsContract.ABI, "Honest", "HON", uint8(18))
-	d.call(1, honest, "mint", w.Eth[1], big.NewInt(1000))
+	d.call(1, honest, "mint", w.Eth[1], new(big.Int).Mul(unit, big.NewInt(1000)))
 	reg("honest", honest)
-	delayed := deploy("delayed", contracts.ERC20MaliciousDelayedContract.Bin, contracts.ERC20MaliciousDelayedContract.ABI, big.NewInt(1000))
+	delayed := deploy("delayed", contracts.ERC20MaliciousDelayedContract.Bin, contracts.ERC20MaliciousDelayedContract.ABI, new(big.Int).Mul(unit, big.NewInt(1000)))
 	reg("delayed", delayed)
-	direct := deploy("directmanip", contracts.ERC20DirectBalanceManipulationContract.Bin, contracts.ERC20DirectBalanceManipulationContract.ABI, big.NewInt(1000))
+	direct := deploy("directmanip", contracts.ERC20DirectBalanceManipulationContract.Bin, contracts.ERC20DirectBalanceManipulationContract.ABI, new(big.Int).Mul(unit, big.NewInt(1000)))
 	reg("directmanip", direct)
 	// fake-log token: registered like a governance-approved external token whose code misbehaves
 	fake := world.ContractAddr(0x60)
@@ -266,7 +269,7 @@ func (d *driver) ops(w *world.World, depth int, path []string) []engine.Op {
 				return "ok"
 			})
 		}
-		for _, cls := range []string{"1", "all"} {
+		for _, cls := range []string{"1", "half", "all"} {
 			cls := cls
 			// token -> coin by an ERC20 transfer to the module address inside an Ethereum tx (hook path)
 			add(fmt.Sprintf("transferToModule(%s,%s)", t.name, cls), func(p []string, res *engine.Result) string {
@@ -430,7 +433,7 @@ func Run(tier string) int {
 	res.Sample(map[string]any{"path": []string{"convertERC20(directmanip,half)", "transferToModule(honest,all)"}})
 	return engine.Finish(res, engine.Meta{
 		Property: Prop, Tier: tier, Level: "model_checking", Start: start,
-		Rule:   "all sequences <= depth over 57 operations: for each of 5 pairs (coin-origin; ERC20-origin honest / malicious-delayed / direct-balance-manipulation / fake-Transfer-log) convertCoin and convertERC20 with {1, half, all, all+1}, ERC20 transfer to the module address (hook path) with {1, all}, bank send of the paired denomination, pair toggle; plus a holder burn; backing invariants after every operation, exact-or-nothing step oracle; part B: all sequences <= 4 (thorough 5) over 30 operations on a fixture with a sixth pair (the IBC voucher of the coin-origin denomination): ibcSend of {coin-origin, voucher going home, ERC20-origin} x {1, all of coins+tokens, all+1} to a valid / garbage receiver, ibcRecv, ack, timeout, convertCoin / convertERC20 of both users, pair toggles - the sender's coins+tokens fall by exactly the amount and the channel escrow grows / the voucher supply falls by it, the recipient's coins+tokens of the arriving denomination rise by exactly the amount, an error acknowledgement or timeout gives the sender exactly the amount back, every rejected step changes nothing, backing invariants and constant supply of the coin-origin denomination in every state; non-trivial = successful conversion distinct by (path, token, amount class)",
+		Rule:   "all sequences <= depth over 63 operations: for each of 5 pairs (coin-origin; ERC20-origin honest / malicious-delayed / direct-balance-manipulation / fake-Transfer-log) convertCoin and convertERC20 with {1, half, all, all+1}, ERC20 transfer to the module address (hook path) with {1, half, all}, bank send of the paired denomination, pair toggle; plus a holder burn; backing invariants after every operation, exact-or-nothing step oracle; part B: all sequences <= 4 (thorough 5) over 30 operations on a fixture with a sixth pair (the IBC voucher of the coin-origin denomination): ibcSend of {coin-origin, voucher going home, ERC20-origin} x {1, all of coins+tokens, all+1} to a valid / garbage receiver, ibcRecv, ack, timeout, convertCoin / convertERC20 of both users, pair toggles - the sender's coins+tokens fall by exactly the amount and the channel escrow grows / the voucher supply falls by it, the recipient's coins+tokens of the arriving denomination rise by exactly the amount, an error acknowledgement or timeout gives the sender exactly the amount back, every rejected step changes nothing, backing invariants and constant supply of the coin-origin denomination in every state; non-trivial = successful conversion distinct by (path, token, amount class)",
 		Bounds: map[string]any{"depth": bounds(tier)},
 		Assumptions: []string{
 			"IBC legs (part B) run over two transfer channel ends written on ibc-go's sentinel localhost connection: packets loop back to the same chain through the real MsgTransfer wrapper, MsgRecvPacket, MsgAcknowledgement and MsgTimeout handlers; at most one packet is in flight",
